@@ -51,11 +51,11 @@ fn has_sugar(spec: &Spec) -> bool {
 pub fn build_case(family: &str, seed: u64, index: usize, mode: &str) -> Case {
     let spec = gen_family_spec(family, seed, index);
     let mut rng = Rng::derive(seed, &[hash64(family.as_bytes()), index as u64, 4242]);
-    let base_paren = match rng.below(4) {
-        0 => Paren::Full,
-        1 => Paren::Redundant,
-        _ => Paren::Minimal,
-    };
+    // Outside the C16 check every definition is printed fully parenthesised, so that the reading
+    // of the text does not depend on the parser's precedence rules (C16's own mode `print`
+    // compiles the minimal, full, redundant and let-factored printings side by side).
+    let _ = rng.below(4);
+    let base_paren = Paren::Full;
     let pseed = rng.next_u64();
     let mut variants = vec![];
     match mode {
